@@ -82,7 +82,12 @@ class ConstantKernel(Kernel):
         self._set_constant(value)
 
     def _set_constant(self, value: Tensor) -> None:
-        value = value.view(*self.batch_shape, 1)
+        if not torch.is_tensor(value):
+            value = torch.as_tensor(value).to(self.raw_constant)
+        # a scalar, or one value per batch element (with or without the trailing singleton dimension of the parameter)
+        if value.dim() > 0 and value.shape == self.batch_shape:
+            value = value.unsqueeze(-1)
+        value = value.expand(*self.batch_shape, 1)
         self.initialize(raw_constant=self.raw_constant_constraint.inverse_transform(value))
 
     def forward(
